@@ -56,9 +56,41 @@ def s2pArgDecHand (_ra dec _a _b _pa : α) : α := dec
 def s2pArgAHand (_ra _dec a _b _pa : α) : α := a / R.ofNat 3600
 def s2pArgBHand (_ra _dec _a b _pa : α) : α := b / R.ofNat 3600
 def s2pArgPaHand (_ra _dec _a _b pa : α) : α := pa
+/-! the bounds `estimate_lmfit_parinfo` sets on one component (after fix f929ab2); common inputs:
+    `ln2` (ln 2), `f2c` (FWHM2CC), `amp0` (the brightest pixel of the summit), `rms` (the noise at that pixel),
+    `ic`/`oc` (innerclip/outerclip), `A`/`B` (major/minor FWHM of the pixel beam), `xs`/`ys` (island box size) -/
+/-- `sampling = max(1.05, 2.0 ** (2.0 / pixbeam.b ** 2))`, with `2 ** e = exp(ln2 · e)` -/
+def samplingHand (ln2 _f2c _amp0 _rms _ic _oc _A B _xs _ys : α) : α :=
+  R.max (R.ofSci 105 true 2) (R.exp (ln2 * (R.ofNat 2 / R.npow B 2)))
+/-- `amp > 0`: `amp_min = 0.95 * min(outerclip * rms, amp)` -/
+def ampMinPosHand (_ln2 _f2c amp0 rms _ic oc _A _B _xs _ys : α) : α := R.ofSci 95 true 2 * R.min (oc * rms) amp0
+/-- `amp > 0`: `amp_max = amp * sampling + innerclip * rms` -/
+def ampMaxPosHand (ln2 f2c amp0 rms ic oc A B xs ys : α) : α :=
+  amp0 * samplingHand ln2 f2c amp0 rms ic oc A B xs ys + ic * rms
+/-- `amp <= 0`: `amp_min = amp * sampling - innerclip * rms` -/
+def ampMinNegHand (ln2 f2c amp0 rms ic oc A B xs ys : α) : α :=
+  amp0 * samplingHand ln2 f2c amp0 rms ic oc A B xs ys - ic * rms
+/-- `amp <= 0`: `amp_max = 0.95 * max(-outerclip * rms, amp)` -/
+def ampMaxNegHand (_ln2 _f2c amp0 rms _ic oc _A _B _xs _ys : α) : α := R.ofSci 95 true 2 * R.max (-oc * rms) amp0
+/-- `xo_lim = yo_lim = 0.5 * hypot(pixbeam.a, pixbeam.b)`; the bounds are `xo ± xo_lim`, `yo ± yo_lim` -/
+def xoLimHand (_ln2 _f2c _amp0 _rms _ic _oc A B _xs _ys : α) : α := R.ofSci 5 true 1 * R.hypot A B
+def syInitHand (_ln2 f2c _amp0 _rms _ic _oc _A B _xs _ys : α) : α := B * f2c
+/-- `sx = max(pixbeam.a * FWHM2CC, sy * 1.01)` -/
+def sxInitHand (_ln2 f2c _amp0 _rms _ic _oc A B _xs _ys : α) : α := R.max (A * f2c) (B * f2c * R.ofSci 101 true 2)
+/-- `sx_min = sy_min = sy * 0.8` -/
+def sMinHand (_ln2 f2c _amp0 _rms _ic _oc _A B _xs _ys : α) : α := B * f2c * R.ofSci 8 true 1
+/-- `sx_max = sy_max = max((max(xsize, ysize) + 1) * sqrt(2) * FWHM2CC, sx * 1.1)` -/
+def sMaxHand (ln2 f2c amp0 rms ic oc A B xs ys : α) : α :=
+  R.max ((R.max xs ys + R.ofNat 1) * R.sqrt (R.ofNat 2) * f2c)
+        (sxInitHand ln2 f2c amp0 rms ic oc A B xs ys * R.ofSci 11 true 1)
+
 /-- AeRes: `elliptical_gaussian(x, y, peak, xo-1, yo-1, sx*FWHM2CC, sy*FWHM2CC, theta)` -/
 def renderValHand (f2c peak xo yo sx sy theta x y : α) : α :=
   gaussHand x y peak (xo - R.ofNat 1) (yo - R.ofNat 1) (sx * f2c) (sy * f2c) theta
+def sxMinHand (ln2 f2c amp0 rms ic oc A B xs ys : α) : α := sMinHand ln2 f2c amp0 rms ic oc A B xs ys
+def syMinHand (ln2 f2c amp0 rms ic oc A B xs ys : α) : α := sMinHand ln2 f2c amp0 rms ic oc A B xs ys
+def sxMaxHand (ln2 f2c amp0 rms ic oc A B xs ys : α) : α := sMaxHand ln2 f2c amp0 rms ic oc A B xs ys
+def syMaxHand (ln2 f2c amp0 rms ic oc A B xs ys : α) : α := sMaxHand ln2 f2c amp0 rms ic oc A B xs ys
 end Hand
 
 /-! ### the fit: model, mask, residual, objective -/
@@ -235,5 +267,18 @@ def inject (O : EllOracle α) (f2c : α) (t : Truth α) : Comp α :=
     the fit works on `img[xmin:xmax, ymin:ymax]` -/
 def toIsland (xmin ymin : α) (c : Comp α) : Comp α := { c with xo := c.xo - xmin, yo := c.yo - ymin }
 end Report
+
+/-! ### `fitting.errors`: the position errors -/
+section Errors
+variable {α : Type} [R α]
+
+/-- `err_ra, err_dec` as coded: with `ref = pix2sky([xo, yo])` and `offset = pix2sky([xo + err_xo, yo + err_yo])`,
+    `err_ra = gcd(ref.ra, ref.dec, offset.ra, ref.dec)` and `err_dec = gcd(ref.ra, ref.dec, ref.ra, offset.dec)`.
+    `gcd` (angle_tools.gcd, C17) and `pix2sky` (C16) are parameters. -/
+def errRaDec (gcd : α → α → α → α → α) (pix2sky : α → α → α × α) (xo yo errXo errYo : α) : α × α :=
+  let ref := pix2sky xo yo
+  let off := pix2sky (xo + errXo) (yo + errYo)
+  (gcd ref.1 ref.2 off.1 ref.2, gcd ref.1 ref.2 ref.1 off.2)
+end Errors
 
 end Aegean.Model.C01
